@@ -187,3 +187,15 @@ Definition oracle_asgi (i : input) (o : asgi_out) : list nat :=
   ++ (if is_bodiless i
       then (if is_nil_b sent && Nat.eqb (ao_reads o) 0 then [] else [4%nat]) else [])
   ++ (if close_ok i (ao_reads o) (ao_closes o) then [] else [7%nat]).
+
+(* ---- responses built in several steps: what the documented precedence refers to is the
+   LATEST value assigned to each attribute, whatever was rendered in between *)
+Definition latest_values (l : list step) : option bytes * option bytes * option bytes :=
+  fold_left (fun acc st =>
+               let '(t, d, m) := acc in
+               match st with
+               | StText v => (v, d, m)
+               | StData v => (t, v, m)
+               | StMedia v => (t, d, v)
+               | _ => acc
+               end) l (None, None, None).
